@@ -1199,6 +1199,11 @@ class Interp:
                 if isinstance(args[1], str):
                     args[0].attrs[args[1]] = args[2]
                 return None
+            if name == "dict.fromkeys" and 1 <= len(args) <= 2 and not kwargs:
+                keys = args[0]
+                if not isinstance(keys, (list, tuple, dict, set, frozenset, str)):
+                    keys = self.iterate(keys, node)
+                return {_hashable(k): (args[1] if len(args) > 1 else None) for k in keys}
             if name == "object" and not args and not kwargs:
                 return Sentinel()
             if name == "getattr" and len(args) >= 2 and isinstance(args[0], Obj) and isinstance(args[1], str):
